@@ -149,6 +149,64 @@ func switchRace(w *vio.Writer, rng *rand.Rand, trials int) {
 	}
 }
 
+// removeRace: a small filter; two readers look up an address of range A in a tight loop while A is removed; afterwards
+// the address is probed again - whatever a lookup remembers must not outlive the removal.
+func removeRace(w *vio.Writer, rng *rand.Rand, trials int) {
+	for t := 0; t < trials; t++ {
+		log := evlog.New()
+		flt := netutil.NewIPv4Filter()
+		main := log.Buf()
+		procs.Range(func(k, _ any) bool { procs.Delete(k); return true })
+		a := uint32(30+t%60)<<24 | uint32(rng.Intn(250))<<16
+		others := []uint32{uint32(130)<<24 | uint32(t%250)<<16, uint32(140)<<24 | uint32(t%250)<<16}
+		var cs [][]int
+		for _, v := range append([]uint32{a}, others...) {
+			flt.Add(&net.IPNet{IP: ip4(v), Mask: net.CIDRMask(16, 32)})
+			cs = append(cs, bits(v, 16))
+		}
+		main.Emit(ev{K: "bulk", Cs: cs, C: []int{}, IP: []int{}})
+		var ready atomic.Int32
+		var wg sync.WaitGroup
+		const R = 2
+		for g := 0; g <= R; g++ {
+			wg.Add(1)
+			go func(g int) {
+				defer wg.Done()
+				b := log.Buf()
+				ready.Add(1)
+				for ready.Load() <= R {
+				}
+				if g == R {
+					b.Emit(ev{K: "wb", P: 100, Op: "remove", C: bits(a, 16), IP: []int{}})
+					err := flt.Remove(&net.IPNet{IP: ip4(a), Mask: net.CIDRMask(16, 32)})
+					b.Emit(ev{K: "we", P: 100, Op: "remove", C: bits(a, 16), IP: []int{}, Err: err != nil})
+					return
+				}
+				for k := 0; k < 25; k++ {
+					v := a | uint32(k)
+					b.Emit(ev{K: "rb", P: 60 + g, C: []int{}, IP: bits(v, 32)})
+					res := flt.Contains(ip4(v))
+					b.Emit(ev{K: "re", P: 60 + g, C: []int{}, IP: bits(v, 32), Res: res})
+				}
+			}(g)
+		}
+		wg.Wait()
+		for k := 0; k < 3; k++ {
+			v := a | uint32(100+k)
+			main.Emit(ev{K: "rb", P: 50, C: []int{}, IP: bits(v, 32)})
+			main.Emit(ev{K: "re", P: 50, C: []int{}, IP: bits(v, 32), Res: flt.Contains(ip4(v))})
+		}
+		v := others[0] | 9
+		main.Emit(ev{K: "rb", P: 50, C: []int{}, IP: bits(v, 32)})
+		main.Emit(ev{K: "re", P: 50, C: []int{}, IP: bits(v, 32), Res: flt.Contains(ip4(v))})
+		maps, index := flt.VerifState()
+		w.Put(map[string]any{"evs": log.Merge(), "maps": maps, "index": index, "run": -2, "note": "removerace"})
+	}
+}
+
+var recent [32]atomic.Uint32
+var recentN atomic.Uint32
+
 func main() {
 	trials := flag.Int("switchrace", 200, "trials of the remove-across-the-switch race")
 	out := flag.String("out", "traces.ndjson", "")
@@ -179,6 +237,7 @@ func main() {
 	w := vio.Create(*out)
 	defer w.Close()
 	switchRace(w, rng, *trials)
+	removeRace(w, rng, *trials)
 	for run := 0; run < *runs; run++ {
 		dwell.Store(int64(50+rng.Intn(400)) * 1000)
 		log := evlog.New()
@@ -262,6 +321,7 @@ func main() {
 						mine = append(mine, sub{v, plen})
 					}
 					c := &net.IPNet{IP: ip4(v | r.Uint32()&(uint32(1)<<uint(32-plen)-1)), Mask: net.CIDRMask(plen, 32)}
+					recent[recentN.Add(1)%uint32(len(recent))].Store(v) // readers follow the writers: they look up what is being added / removed right now
 					b.Emit(ev{K: "wb", P: 100 + i, Op: op, C: bits(v, plen), IP: []int{}})
 					var err error
 					if op == "add" {
@@ -290,7 +350,9 @@ func main() {
 				procs.Store(goid(), procInfo{b, j + 1})
 				for n := 0; !stop.Load() && n < 3000; n++ {
 					var v uint32
-					switch r.Intn(4) {
+					switch r.Intn(6) {
+					case 4, 5: // an address of a range some writer has just begun to add or remove
+						v = recent[r.Intn(len(recent))].Load() | r.Uint32()&0x3
 					case 0, 1: // inside an anchor: present during the whole run
 						v = anchors[r.Intn(len(anchors))] | r.Uint32()&0xffff
 					case 2: // never covered by any range (unless 0.0.0.0/0 is possibly present)
